@@ -1692,10 +1692,14 @@ pub fn shards(tier: &str) -> Vec<String> {
         }
     }
     v.push("hand".into());
+    v.extend(super::c15x::shards_extra(tier));
     v
 }
 
 pub fn run(ctx: &mut Ctx) {
+    if ctx.shard.starts_with("x:") {
+        return super::c15x::run_extra(ctx);
+    }
     // Every manager owns a worker and a gc thread; the default worker stack is 1 GiB of address
     // space. The diagrams here have at most a few dozen nodes, so a small stack is ample, and many
     // managers can be created per second. (Set before any manager exists; single-threaded here.)
